@@ -38,6 +38,39 @@ CHECKS = {
          "Generated operand triples (all 343 edge combinations + thousands of random ones) are pushed through every base-field gadget on an adversarial evaluation engine under two range-check flavours and compared with independent uint64 Goldilocks arithmetic; reduce inputs are drawn on both sides of the 2^b*p limit. Exploration, not proof: it shows agreement on everything generated.",
          "Trusts the engine's frontend.API semantics (cross-validated against gnark's test engine and compiled R1CS/SCS in C06) and ref's 60-line field arithmetic (validated by real-proof acceptance).",
          "DESIGN.md section 4 (C07)"),
+ "C08": ("property-based testing (rapid) against a reference GF(p^2)/algebra model, with metamorphic field laws",
+         "Edge-heavy operand tuples through every extension-field and algebra gadget (27 operations incl. exponentiation up to 64-bit exponents, power-reduction and inner products up to 300 terms, partial barycentric interpolation) compared with 30 lines of reference arithmetic; inverse/division of zero must be rejected; a*a^-1=1, (a/b)*b=a, a^(m+n)=a^m*a^n evaluated in circuit.",
+         "Reference arithmetic is trusted (validated by real-proof acceptance).", "DESIGN.md section 4 (C08)"),
+ "C09": ("property-based testing (rapid) against a naive reference Poseidon; fault injection at every hint call for functionality",
+         "Generated states and input sequences (canonical and value+k*p) through the permutation, HashNoPad, HashNToMNoPad and the extension-layer helpers compared with the naive 30-round reference (the circuit uses the optimised schedule); all 1650 hint calls of a permutation are substituted by dishonest tuples and must be rejected (no second output).",
+         "Reference validated by plonky2's published zero-vector and by real-proof acceptance.", "DESIGN.md section 4 (C09)"),
+ "C10": ("property-based testing (rapid) against a reference PoseidonBN128; two-input injectivity properties; solver hint override on compiled R1CS/SCS",
+         "Permutation, sponge, shortcut, two-to-one and hash-to-field conversion compared with the reference on edge/random inputs across the length boundaries; injectivity of the <=3-element packing and of the 56-bit chunking checked as two-input properties in circuit; on compiled systems a dishonest bit decomposition of hash+r is rejected.",
+         "BN254 reference shares the optimised iden3 schedule with frozen constants (independence rests on KAT + real Merkle paths).", "DESIGN.md section 4 (C10)"),
+ "C11": ("model-based (stateful) property testing of the challenger against a reference duplex sponge; differential transcripts; metamorphic sensitivity",
+         "Histories of up to 200 observe/squeeze operations are executed in circuit and compared squeeze by squeeze with the reference challenger; GetChallenges on the 5 real proofs and on same-shape random transcripts equals the reference transcript; changing one observed value changes all later and no earlier challenges.",
+         "Reference transcript reproduces the challenge constants hard-coded in tests/fri_test.go.", "DESIGN.md section 4 (C11)"),
+ "C12": ("property-based testing (rapid) with backwards-constructed Merkle trees and generated single-element corruptions against a reference recomputation",
+         "Random trees (height 4..12, leaf width 1..140) with one corruption drawn from nine kinds, plus the real openings of the corpus; accept iff the reference recomputation equals the selected cap entry (unselected-entry changes must still accept).",
+         "Reference PoseidonBN128 (C10).", "DESIGN.md section 4 (C12)"),
+ "C13": ("property-based testing (rapid) of FRI sub-gadgets and of whole query rounds constructed backwards with a reference, with generated single-ingredient mutations",
+         "Sub-gadget outputs equal the reference on random inputs (degenerate points expect REJECT); query rounds with 1..3 folds are constructed backwards, Merkle-sealed, then one ingredient is changed with re-sealing so that only the algebra can reject; accept iff the reference round check passes; all real rounds too.",
+         "Reference FRI accepts the 140 real rounds.", "DESIGN.md section 4 (C13)"),
+ "C14": ("property-based testing (rapid) with an integer oracle over response x difficulty x flavour; natively ground witnesses substituted into real transcripts",
+         "assertLeadingZeros accepts iff response < 2^(64-b) for b in 1..63 (and 16/32/48 under the commit flavour); VerifyFriProof with only the response replaced; PoW witnesses (random and ground) substituted into real transcripts with the response recomputed in circuit.",
+         "Reference transcript (C11).", "DESIGN.md section 4 (C14)"),
+ "C15": ("property-based testing (rapid) over a gate-identifier grammar: differential against reference gate polynomials plus a semantic honest-row oracle",
+         "For all 14 gate types and generated parameters the constraint vector equals the reference element-wise on random GF(p^2) rows; rows produced by semantic witness generators (run the computation, record witnesses) zero every constraint; filtered sums over random selector layouts equal the reference position-wise.",
+         "Reference gates validated by real proofs (13 of 14 types) and by the honest-row oracle.", "DESIGN.md section 4 (C15)"),
+ "C16": ("property-based testing (rapid): opening sets with reference-solved quotients (accept side) and generated single-coordinate perturbations (reject side) on real and synthetic descriptions",
+         "Quotient chunk 0 is solved so that the identity holds, then one opening/challenge coordinate is perturbed; PlonkChip.Verify must agree with the reference on real descriptions and on random synthetic ones (1..3 rounds, up to 80 routed wires, random gate sets); evalVanishingPoly compared value by value.",
+         "Reference vanishing polynomial (accepts real proofs).", "DESIGN.md section 4 (C16)"),
+ "C18": ("grammar-based property testing (rapid) with repeated resolution to sweep map iteration order",
+         "Identifiers generated from plonky2 Debug formats: supported ones resolve 200 times to deeply-equal gates whose Id() states exactly the given parameters and whose behaviour equals the reference gate; unsupported gates and D != 2 variants are refused on all 200 resolutions; hiding-enabled common data is refused.",
+         "Formats of unsupported gates are written from memory of the plonky2 sources.", "DESIGN.md section 4 (C18)"),
+ "C19": ("model-based document generation (rapid): round-trip of every number by name and position, one-value differential, generated corruptions from the listed classes",
+         "Random-shape documents are read by the repository's readers and every leaf (name and value, schema order) is compared with the model; one edited value changes exactly that leaf; listed malformed values are refused at read, deserialise or witness time; common-data documents arrive field by field.",
+         "Signed decimal strings and JSON null are outside the listed classes (accepted today; not generated).", "DESIGN.md section 4 (C19)"),
  "C20": ("generated shape mutation of accepted instances (reflect-enumerated list kinds x 5 operations) and reference-labelled configuration edits against a never-accept oracle",
          "Every list kind of the proof structure (30 kinds; first/middle/last round) is altered by drop-first/drop-last/duplicate-last/append-zero/empty in template and assignment alike, and FRI configuration constants are edited coherently against the unchanged proof; the whole verifier must REFUSE or REJECT, never ACCEPT.",
          "Single-copy edits of configuration fields the verifier reads from one copy, and proof-of-work bits, are not shape changes and are not generated.",
